@@ -91,6 +91,16 @@ func (r *Run) N(quick, thorough int) int {
 	n := quick
 	if r.Thorough() {
 		n = thorough
+		// Every case is re-evaluated inside Coq (a few ms to tens of ms each); cap the thorough volume at
+		// 15x the quick volume so that a thorough run stays within tens of minutes on 16 cores.
+		// VERIF_THOROUGH_CAP=0 lifts the cap for a soak run.
+		cap := 15
+		if v := os.Getenv("VERIF_THOROUGH_CAP"); v != "" {
+			fmt.Sscanf(v, "%d", &cap)
+		}
+		if cap > 0 && quick > 0 && n > cap*quick {
+			n = cap * quick
+		}
 	}
 	return n * r.Scale
 }
